@@ -353,7 +353,8 @@ def _run_unit(unit, tier, want_props=None, logdir=None, seed=0):
     open(can_rs, "w").write(ctext)
     open(os.path.join(logdir, "assembled_%s.rs" % unit.name), "w").write(text)
     assumptions = scan_assumptions(text)
-    with cf.ThreadPoolExecutor(max_workers=2 + len(unit.extra_configs)) as ex:
+    with cf.ThreadPoolExecutor(max_workers=3 + len(unit.extra_configs)) as ex:
+        fsearch = ex.submit(cex_search, unit, logdir) if unit.cex_search else None
         f1 = ex.submit(_run_verus, main_rs, unit, os.path.join(logdir, "verus_main"))
         f2 = ex.submit(_run_verus, can_rs, unit, os.path.join(logdir, "verus_canary"))
         fx = [ex.submit(_run_verus, main_rs, unit, os.path.join(logdir, "verus_cfg%d" % i), cfg)
@@ -367,6 +368,7 @@ def _run_unit(unit, tier, want_props=None, logdir=None, seed=0):
             for d in xdiags:
                 d["message"] = "[cfg %s] %s" % (" ".join(unit.extra_configs[i]), d.get("message", ""))
             diags = diags + xdiags
+        presearch = fsearch.result() if fsearch else None
     if res is None:
         raise Undecided("Verus produced no result JSON (rc=%s): %s" % (rc, out[-1500:]))
     vr = res.get("verification-results", {})
@@ -443,8 +445,30 @@ def _run_unit(unit, tier, want_props=None, logdir=None, seed=0):
         obls = [o for o in obls if set(o.props) & set(want_props)]
     violated = [o for o in obls if o.status == VIOLATED]
     cex_info = None
+    if unit.cex_search:
+        # The bounded end-to-end search runs on EVERY check: besides attaching inputs to failed obligations it is the
+        # (bounded, labelled) stand-in for the contracts this unit only assumes (OwningIovec, find_stuff_sequence, arena reads):
+        # a change inside those dependencies that breaks the property shows up here although every Verus obligation still holds.
+        cex_info = presearch
+        allp = sorted(set(p for seg in unit.segments if isinstance(seg, VImpl) for vf in seg.fns for p in vf.props))
+        so = Obligation("verus:%s:assumed-contracts-bounded-crosscheck" % unit.name, "public API of the %s unit, real dependencies" % unit.name,
+                        "executable twins of the spec functions against the REAL code with its real dependencies (vx/%s/%s): bounded "
+                        "stand-in for the assumed contracts of this unit" % (unit.name, unit.cex_search["src"]),
+                        allp, "cargo test (bounded search)", kind="bounded", bound="see vx/%s/%s" % (unit.name, unit.cex_search["src"]))
+        so.time_s = cex_info.get("wall_s", 0.0)
+        so.checks = 1
+        if not cex_info.get("ran"):
+            so.status, so.detail = UNDECIDED, cex_info.get("note", "search did not run")
+        elif cex_info.get("found"):
+            so.status, so.detail = VIOLATED, "failing inputs on the real code:\n" + "\n".join(cex_info["found"][:5])
+            violated = violated + [so]
+        else:
+            so.status = DISCHARGED
+        if want_props is None or set(so.props) & set(want_props):
+            obls.append(so)
     if violated:
-        cex_info = cex_search(unit, logdir) if unit.cex_search else {"ran": False, "found": []}
+        if cex_info is None:
+            cex_info = {"ran": False, "found": []}
         for o in violated:
             write_replay(unit, o, cex_info)
     extra = {
